@@ -228,6 +228,178 @@ def _scenario_eval(b, local, scen, depth=0):
     return v
 
 
+def _walk_operator(gp, direction, before_empty, targets, ope_local, limit=60000):
+    """Follow the CFG of get_paging under the scenario (direction of the key, `params.before.is_empty()`), tracking constants,
+    copies and tuples of constants along the path, and collect the value of the operator variable at the comparison templates.
+    Every switch whose operand is known in the scenario is followed on that edge only; all others fork.  This decides the
+    operator table whatever the idiom (flag variable, tuple binding, nested ifs, match on a tuple, or-patterns, helper)."""
+    out = set()
+    seen = set()
+    work = [(0, ())]
+    succ = gp.succs()
+    # only the locals that can influence a branch or the operator are tracked (backward slice over copies, references, tuples,
+    # discriminants and negations from every switch operand and from the operator variable)
+    deps = {}
+    for bl_ in gp.blocks:
+        for s_ in bl_["s"]:
+            if len(s_["lhs"]) < 1:
+                continue
+            rv_ = s_["rv"]
+            srcs = []
+            if rv_["r"] == "use":
+                q_ = rv_["o"].get("c") or rv_["o"].get("m")
+                if q_:
+                    srcs.append(q_[0])
+            elif rv_["r"] in ("ref", "discr") and rv_.get("p"):
+                srcs.append(rv_["p"][0])
+            elif rv_["r"] == "aggr":
+                for o_ in rv_.get("ops", []):
+                    q_ = o_.get("c") or o_.get("m")
+                    if q_:
+                        srcs.append(q_[0])
+            elif rv_["r"] == "un":
+                q_ = rv_["o"].get("c") or rv_["o"].get("m")
+                if q_:
+                    srcs.append(q_[0])
+            deps.setdefault(s_["lhs"][0], set()).update(srcs)
+    relevant = {ope_local}
+    for bl_ in gp.blocks:
+        if bl_["t"]["k"] == "switch":
+            q_ = bl_["t"]["d"].get("c") or bl_["t"]["d"].get("m")
+            if q_:
+                relevant.add(q_[0])
+    todo = list(relevant)
+    while todo:
+        l_ = todo.pop()
+        for s2 in deps.get(l_, ()):
+            if s2 not in relevant:
+                relevant.add(s2)
+                todo.append(s2)
+    dir_cache = {}
+
+    def value_of(st, place):
+        """value of a place [local, proj...]: constant, ('t', comps) or None"""
+        v = st.get(place[0])
+        for pj in place[1:]:
+            if v is None:
+                return None
+            if pj == "*":
+                if isinstance(v, tuple) and v and v[0] == "ref":
+                    v = st.get(v[1]) if len(v[2]) == 0 else value_of(st, [v[1]] + list(v[2]))
+                continue
+            if isinstance(pj, str) and pj.startswith(".") and pj[1:].isdigit() and isinstance(v, tuple) and v and v[0] == "t":
+                i = int(pj[1:])
+                v = v[1][i] if i < len(v[1]) else None
+                continue
+            return None
+        return v
+
+    def is_direction(place):
+        k_ = tuple(place)
+        if k_ not in dir_cache:
+            t = gp.place_term(list(place), 0, True)
+            while t[0] in ("ref", "deref"):
+                t = t[1]
+            dir_cache[k_] = t[0] == "field" and t[2] == "direction"
+        return dir_cache[k_]
+
+    while work and limit > 0:
+        limit -= 1
+        x, frozen = work.pop()
+        if (x, frozen) in seen:
+            continue
+        seen.add((x, frozen))
+        st = dict(frozen)
+        bl = gp.blocks[x]
+        if x in targets:
+            v = st.get(ope_local)
+            out.add(v if isinstance(v, int) and not isinstance(v, bool) else None)
+        for s_ in bl["s"]:
+            lhs = s_["lhs"]
+            rv = s_["rv"]
+            if len(lhs) != 1:
+                st.pop(lhs[0], None)
+                continue
+            val = None
+            r = rv["r"]
+            if r == "use":
+                o = rv["o"]
+                if "k" in o:
+                    val = o["k"].get("v")
+                    if not isinstance(val, (bool, int)):
+                        val = None
+                else:
+                    q = o.get("c") or o.get("m")
+                    if q:
+                        val = value_of(st, q)
+            elif r == "ref" and rv.get("p"):
+                val = ("ref", rv["p"][0], tuple(rv["p"][1:]))
+            elif r == "aggr" and rv.get("kind") == "tuple":
+                comps = []
+                for o in rv.get("ops", []):
+                    if "k" in o:
+                        v_ = o["k"].get("v")
+                        comps.append(v_ if isinstance(v_, (bool, int)) else None)
+                    else:
+                        q = o.get("c") or o.get("m")
+                        comps.append(value_of(st, q) if q else None)
+                val = ("t", tuple(comps))
+            elif r == "discr" and rv.get("p"):
+                pl = rv["p"]
+                # resolve references held in the state (`match (&ord.direction, before)`)
+                base = pl
+                v0 = value_of(st, [pl[0]] + [x_ for x_ in pl[1:] if x_ != "*"]) if pl else None
+                if isinstance(v0, tuple) and v0 and v0[0] == "ref":
+                    base = [v0[1]] + list(v0[2])
+                if is_direction(pl) or is_direction(base):
+                    table = {name: idx for idx, name in rv.get("vars", [])}
+                    if direction in table:
+                        val = ("d", table[direction])
+            elif r == "un" and rv.get("op") == "Not":
+                q = rv["o"].get("c") or rv["o"].get("m")
+                v_ = value_of(st, q) if q else None
+                if isinstance(v_, bool):
+                    val = not v_
+            if val is None or lhs[0] not in relevant:
+                st.pop(lhs[0], None)        # only flags, operators, discriminants, tuples and references are tracked (loop counters would blow the state up)
+            else:
+                st[lhs[0]] = val
+        t = bl["t"]
+        if t["k"] == "call":
+            d = t["dest"]
+            if d:
+                st.pop(d[0], None)
+            nm = callee_name(t)
+            if nm.endswith("::is_empty") and t["args"] and len(d) == 1:
+                k_ = ("empty", x)
+                if k_ not in dir_cache:
+                    at = gp.operand_term(t["args"][0], 0, True)
+                    dir_cache[k_] = field_path(strip_refs(at)).endswith(".before")
+                if dir_cache[k_] and d[0] in relevant:
+                    st[d[0]] = before_empty
+        frozen2 = tuple(sorted((k, v) for k, v in st.items() if not (isinstance(v, tuple) and v and v[0] == "ref" and False)))
+        if t["k"] == "switch" and len(succ[x]) > 1:
+            dpl = t["d"].get("c") or t["d"].get("m")
+            v = value_of(st, dpl) if dpl else None
+            want = None
+            if isinstance(v, bool):
+                want = 1 if v else 0
+            elif isinstance(v, tuple) and v and v[0] == "d":
+                want = v[1]
+            elif isinstance(v, int):
+                want = v
+            if want is not None:
+                tgt = None
+                for tv, tg in t["targets"]:
+                    if tv == want:
+                        tgt = tg
+                work.append((tgt if tgt is not None else t["otherwise"], frozen2))
+                continue
+        for sx in succ[x]:
+            work.append((sx, frozen2))
+    return out
+
+
 WANT_OPE = {("Asc", "before"): "<", ("Asc", "after"): ">", ("Desc", "before"): ">", ("Desc", "after"): "<"}
 AGG = {"Avg": r"\bavg\(\{\}\)", "Count": r"\bcount\((1|\*)\)", "Max": r"\bmax\(\{\}\)", "Min": r"\bmin\(\{\}\)", "Sum": r"\b(total|sum)\(\{\}\)"}
 
@@ -329,45 +501,58 @@ def run_tables(P, C):
                     return lists.get(sc[0])
             return None
 
+        # the operator table, decided by following the CFG under each of the four scenarios
+        ope_locals = set()
+        for bi, parts, holes in main:
+            o_ = strip_refs(holes[1][1])
+            raw = gp.call_args(bi)[0] if False else None
         for l in chars:
-            for (bi, si, rv, lhs) in gp.defs().get(l, ()):
-                if gp.blocks[bi]["cl"] or bi not in gp.live_blocks():
-                    continue
-                v = strip_refs(gp.def_term(bi, si, rv, 0))
-                if v[0] != "const" or not isinstance(v[1], int):
-                    continue
-                direction = None
-                which = None
-                for s, vals, term in gp.guards(bi):
-                    dv = mir.discr_variants(term, vals)
-                    if dv and len(dv[1]) == 1 and dv[1][0] in ("Asc", "Desc"):
-                        full = gp.switch_term(s, expand_vars=True)
-                        src = full[1] if full[0] == "discr" else full
-                        # the matched value may be packed in a tuple `(direction, before)`: take the Direction component
-                        if field_path(gp.origin(strip_refs(src))).endswith("direction") or re.search(r"\.direction\b", term_str(src)):
-                            direction = (dv[1][0], _index_call(src, r"order_by"))
-                    else:
-                        atom, truth = mir.cond_atoms(term, vals)
-                        a = strip_refs(atom)
-                        if truth is None:
+            ope_locals.add(l)
+        tmpl_blocks = {bi for bi, parts, holes in main}
+        # observe at the first call of each comparison template's region: the Argument::new_display of the operator
+        obs = set()
+        for bi_, t_ in gp.live_calls(awaits=True) if False else gp.calls():
+            pass
+        for bi_, t_ in gp.calls():
+            if bi_ in gp.live_blocks() and callee_name(t_).endswith("Argument::new_display") and t_["args"]:
+                a_ = gp.operand_term(t_["args"][0], 0, False)
+                u_ = strip_refs(a_)
+                for _ in range(4):
+                    while u_[0] in ("ref", "deref"):
+                        u_ = strip_refs(u_[1])
+                    # the `args` tuple of format_args!: component k of a tuple literal of references
+                    if u_[0] == "field" and u_[2].isdigit() and strip_refs(u_[1])[0] == "var":
+                        ds_ = [strip_refs(x) for x in gp.var_defs(strip_refs(u_[1]))]
+                        if len(ds_) == 1 and ds_[0][0] == "aggr" and ds_[0][1] == "tuple" and int(u_[2]) < len(ds_[0][4]):
+                            u_ = strip_refs(ds_[0][4][int(u_[2])])
                             continue
-                        if a[0] == "field" and a[2].isdigit():
-                            # component of a matched tuple `(direction, before)`
-                            base = strip_refs(gp.switch_term(s, expand_vars=True))
-                            a2 = strip_refs(a[1])
-                            if a2[0] == "aggr" and a2[1] == "tuple":
-                                a = strip_refs(a2[4][int(a[2])])
-                        if a[0] == "var":
-                            w = which_list(a, truth)
-                            if w is not None:
-                                which = w
-                        elif a[0] == "call" and a[1].endswith("::is_empty") and term_str(a).endswith(".before)"):
-                            which = lists.get(truth) if lists else ("after" if truth else "before")
-                if direction is None or which is None:
-                    bad.append("operator %r assigned at %s is not decided by (direction of the key, before/after): direction=%s list=%s" % (chr(v[1]), gp.loc(bi), direction, which))
-                    continue
-                table.setdefault((direction[0], which), set()).add(chr(v[1]))
-                table.setdefault("idx", set()).add(term_str(direction[1][1]) if direction[1] else "?")
+                    break
+                if u_[0] == "var" and len(u_) > 2 and u_[2] in ope_locals:
+                    obs.add((bi_, u_[2]))
+        key_idx = set()
+        if len({l for _, l in obs}) == 1 and obs:
+            ope_l = list(obs)[0][1]
+            for dname in ("Asc", "Desc"):
+                for bempty in (True, False):
+                    which = (lists.get(bempty) if lists else None)
+                    if ta is not None:
+                        which = "after" if bempty else "before"
+                    vals = _walk_operator(gp, dname, bempty, {b_ for b_, _ in obs}, ope_l)
+                    if None in vals or not vals:
+                        bad.append("operator not decided on some path for (%s, before list %s): %s" % (dname, "empty" if bempty else "not empty", sorted(str(v_) for v_ in vals)))
+                        continue
+                    table.setdefault((dname, which), set()).update(chr(v_) for v_ in vals)
+        else:
+            bad.append("the operator written into the comparison templates is not one char variable: %s" % sorted(obs))
+        # the direction that decides is the one of the key that is compared: every match on a Direction reads order_by[<outer index>]
+        for sb in sorted(gp.live_blocks()):
+            tt_ = gp.blocks[sb]["t"]
+            if tt_["k"] != "switch":
+                continue
+            full = gp.switch_term(sb, expand_vars=True)
+            if full[0] == "discr" and full[2].endswith("Direction"):
+                ic = _index_call(full[1], r"order_by")
+                table.setdefault("idx", set()).add(term_str(ic[1]) if ic else "?")
         for k, want in sorted(WANT_OPE.items()):
             got = table.get(k)
             C.ob("R5", "operator:%s-%s" % k, got == {want}, gp.loc(), "%s key, %s cursor: operator %s (needed: %s)" % (k[0], k[1], sorted(got) if got else None, want))
